@@ -31,7 +31,7 @@ class AMachine(Machine):
     gcc_pool = 6
     gcc_fresh = 0.5            # share of the gcc runs that get a program of their own (with long blocks)
     gcc_share = 0.12           # share of runs on the gcc backend
-    features = ["mem", "straddle", "stack", "call", "loop", "branch", "rep", "indirect", "multi"]
+    features = ["mem", "straddle", "stack", "call", "loop", "branch", "rep", "indirect", "multi", "exc"]
     actors = []
     quick_runs = 420
     thorough_runs = 7000
@@ -66,13 +66,19 @@ class AMachine(Machine):
             feat.discard("multi")      # open finding: multi-store instructions are torn by a fault
         if arch != "x86_32":
             feat -= {"rep", "indirect", "smc"}
-        if arch == "mips32l":
+        if a_sim.family(arch) == "mips32l":
             feat -= {"multi"}
             if self.pid == "C21" and "mem" in feat:
                 feat.add("slotmem")       # loads/stores in branch delay slots (no faults are injected in C21)
         return a_sim.gen_program(arch, rng, feat), sorted(feat)
 
     must_features = []
+    be_share = 0.3             # share of the ARM / MIPS guests that run big-endian (armb, mips32b)
+
+    def endianness(self, rng, arch):
+        if arch in ("arml", "mips32l") and rng.random() < self.be_share:
+            return {"arml": "armb", "mips32l": "mips32b"}[arch]
+        return arch
 
     def gen_knobs(self, rng):
         return {"maxline": rng.choice([1, 2, 3, 5, 8, 50, 50]), "quantum": rng.choice([0, 0, 1, 2, 3, 7]),
@@ -86,11 +92,13 @@ class AMachine(Machine):
             # program from the per-batch pool (same seed -> same program -> warm disk cache), any block length
             prng = random.Random(derive(getattr(self, "master_seed", 0), "pool", rng.randrange(self.gcc_pool)))
             arch = "arml" if prng.random() < self.arm_share else "x86_32"
+            arch = self.endianness(prng, arch)
             lines, feat = self.gen_program(prng, steer, arch)
             init = a_sim.default_regs(arch, prng)
         else:
             r = rng.random()
             arch = "arml" if r < self.arm_share else "mips32l" if r < self.arm_share + self.mips_guest_share else "x86_32"
+            arch = self.endianness(rng, arch)
             lines, feat = self.gen_program(rng, steer, arch)
             init = a_sim.default_regs(arch, rng)
         knobs = self.gen_knobs(rng)
@@ -120,7 +128,7 @@ class AMachine(Machine):
         """Which of the data pages (0: D0, 1: D1, 2: RO) the program text touches, in order of
         first use: the injector aims at memory that in-flight work is going to access."""
         used = []
-        if cfg["arch"] == "arml":
+        if a_sim.family(cfg["arch"]) == "arml":
             for line in cfg["program"]:
                 for tok, pages in (("[R9", (0, 1)), ("R9,", (0, 1)), ("[R10", (0,)), ("R10,", (0,)), ("[R11", (1,)), ("R11,", (1,)),
                                    ("[R8", (2,)), ("SP!", (3,))):
@@ -129,7 +137,7 @@ class AMachine(Machine):
                             if pg not in used:
                                 used.append(pg)
             return used or [0]
-        if cfg["arch"] == "mips32l":
+        if a_sim.family(cfg["arch"]) == "mips32l":
             for line in cfg["program"]:
                 for tok, pages in (("(S2)", (0, 1)), ("(S0)", (0,)), ("(S1)", (1,)), ("(S3)", (2,)), ("(SP)", (3,))):
                     if tok in line:
@@ -314,6 +322,9 @@ class AMachine(Machine):
             return
         if not run.ended:
             raise Violation(self.pid + "/final-state", "run ended without reaching the end address", facts)
+        if run.exc_count != len(ref.exc_log):
+            raise Violation(self.pid + "/soft-exception-lost", "%s backend: %d software exceptions handled, the reference handled %d"
+                            % (run.backend, run.exc_count, len(ref.exc_log)), facts)
         if run.final_digest != ref.final or run.final_pc != ref.final_pc:
             raise Violation(self.pid + "/final-state", "%s backend: final state differs from the reference (pc %#x vs %#x, %d reference ticks)"
                             % (run.backend, run.final_pc, ref.final_pc, ref.ticks), facts)
@@ -329,7 +340,7 @@ class C21(AMachine):
             "clear_jitted_blocks), stop/resume, warm/cold restart; non-trivial = reference has >=5 ticks; distinct = distinct event-log digest")
     actors = ["tuner", "restarter"]
     mips_guest_share = 0.12
-    features = ["mem", "straddle", "stack", "call", "loop", "branch", "rep", "indirect", "multi", "smc"]
+    features = ["mem", "straddle", "stack", "call", "loop", "branch", "rep", "indirect", "multi", "smc", "exc"]
     expected_probes = ["tuner_set_options", "tuner_clear_cache", "stop_resume", "restart_warm", "restart_cold", "warm_start",
                        "runs_completed"]
 
@@ -472,7 +483,7 @@ class C49(AMachine):
     must_features = ["mem", "straddle"]
     # no REP: miasm runs all iterations of a REP instruction inside one IR loop, so the reference has
     # no per-iteration states to compare a mid-REP fault stop with (stated limit, see DESIGN)
-    features = ["mem", "straddle", "stack", "call", "loop", "branch", "indirect", "ro", "multi"]
+    features = ["mem", "straddle", "stack", "call", "loop", "branch", "indirect", "ro", "multi", "exc"]
     actors = ["fault injector", "tuner"]
     gcc_share = 0.25
     gcc_fresh = 1.0
@@ -505,7 +516,7 @@ class C20(AMachine):
             "faults); each case is executed on the python and on the gcc backend, each judged against the reference and the two "
             "compared directly (final state, breakpoint hit sequence)")
     actors = ["tuner", "debugger", "fault injector"]
-    features = ["mem", "straddle", "stack", "call", "loop", "branch", "indirect", "ro", "multi"]
+    features = ["mem", "straddle", "stack", "call", "loop", "branch", "indirect", "ro", "multi", "exc"]
     both_backends = True
     gcc_share = 1.0
     gcc_fresh = 0.7
@@ -532,16 +543,17 @@ class C20(AMachine):
     mips_share = 0.12
 
     def run(self, case, keep_log=False):
-        if case["cfg"]["arch"] == "mips32l":
+        if a_sim.family(case["cfg"]["arch"]) == "mips32l":
             return self.run_replicas_only(case, keep_log)
         return AMachine.run(self, case, keep_log)
 
     def gen_mips(self, rng, steer):
         feat = set(f for f in ["mem", "straddle", "stack", "call", "loop", "branch"] if rng.random() < 0.6)
-        lines = a_sim.gen_program("mips32l", rng, feat)
+        arch = self.endianness(rng, "mips32l")
+        lines = a_sim.gen_program(arch, rng, feat)
         knobs = {"maxline": rng.choice([1, 2, 3, 5, 8, 50, 1000]), "quantum": 1, "cache_limit": 10000, "warm": False}
-        cfg = {"arch": "mips32l", "backend": "gcc", "program": lines, "features": sorted(feat),
-               "init_regs": a_sim.default_regs("mips32l", rng), "knobs": knobs, "heal": True, "mode": "replicas"}
+        cfg = {"arch": arch, "backend": "gcc", "program": lines, "features": sorted(feat),
+               "init_regs": a_sim.default_regs(arch, rng), "knobs": knobs, "heal": True, "mode": "replicas"}
         acts = []
         for _ in range(rng.choice([0, 0, 1, 2, 4])):
             r = rng.random()
